@@ -71,11 +71,34 @@ enum Act {
     CloneWakeDrop,
     CloneDropWake,
     CloneCloneDropAll,
+    /// let go of the handle, then enter a NEW poll with the same caller waker (another thread polling the task again), retain
+    /// the waker taken there, wake it by value
+    DropRepollWake,
+    /// the same, the new handle woken by reference and dropped
+    RepollWakeByRefDropBoth,
 }
 
+/// the per-poll borrowed waker of the caller, usable from the worker threads (the caller's waker outlives them)
+#[derive(Clone, Copy)]
+struct SharedCref(CRefWaker<'static>);
+unsafe impl Send for SharedCref {}
+
 /// returns the number of wake operations performed
-fn act(a: Act, w: Waker) -> u64 {
+fn act(a: Act, w: Waker, cref: SharedCref) -> u64 {
     match a {
+        Act::DropRepollWake => {
+            drop(w);
+            let h = cref.0.with_waker(|t| t.clone());
+            h.wake();
+            1
+        }
+        Act::RepollWakeByRefDropBoth => {
+            let h = cref.0.with_waker(|t| t.clone());
+            h.wake_by_ref();
+            drop(w);
+            drop(h);
+            1
+        }
         Act::Drop => {
             drop(w);
             0
@@ -122,6 +145,10 @@ const SCENARIOS: &[(&str, bool, &[Act])] = &[
     ("family_three", true, &[Act::Wake, Act::CloneCloneDropAll, Act::Drop]),
     ("separate_wake_vs_clonewake", false, &[Act::Wake, Act::CloneWakeDrop]),
     ("separate_three", false, &[Act::Drop, Act::CloneDropWake, Act::WakeByRefDrop]),
+    // a handle of the family is released while another thread polls the task again and takes a new handle
+    ("family_lastdrop_vs_repoll", true, &[Act::Drop, Act::DropRepollWake]),
+    ("family_wake_vs_repoll", true, &[Act::Wake, Act::RepollWakeByRefDropBoth]),
+    ("separate_drop_vs_repoll", false, &[Act::Drop, Act::DropRepollWake]),
 ];
 
 /// scenario index space: i < N as listed; i >= N = scenario i - N in which the caller drops its own waker
@@ -141,8 +168,10 @@ fn run_scenario(idx: usize, bound: Option<usize>) -> u64 {
     b.check(move || {
         it2.fetch_add(1, std::sync::atomic::Ordering::Relaxed);
         let slot: &'static Slot = Box::leak(Box::new(Slot { refs: AtomicI64::new(1), wakes: AtomicU64::new(0), floor: if caller_drops { 0 } else { 1 }, released: AtomicU64::new(0) }));
-        let caller = unsafe { Waker::from_raw(RawWaker::new(slot as *const Slot as *const (), &VT)) };
-        let cref = CRefWaker::from(&caller);
+        // (leaked: the worker threads may poll with it again; the caller's own handle is accounted for by `floor`)
+        let caller: &'static Waker = Box::leak(Box::new(unsafe { Waker::from_raw(RawWaker::new(slot as *const Slot as *const (), &VT)) }));
+        let cref: CRefWaker<'static> = CRefWaker::from(caller);
+        let shared = SharedCref(cref);
         // inside the "poll": obtain the foreign-side wakers
         let handed: Vec<Waker> = cref.with_waker(|t| {
             if family {
@@ -156,11 +185,11 @@ fn run_scenario(idx: usize, bound: Option<usize>) -> u64 {
         });
         let mut joins = Vec::new();
         for (a, w) in acts.iter().copied().zip(handed) {
-            joins.push(loom::thread::spawn(move || act(a, w)));
+            joins.push(loom::thread::spawn(move || act(a, w, shared)));
         }
-        let mut caller = Some(caller);
         if caller_drops {
-            drop(caller.take());
+            // the caller lets go of its own handle (through the vtable) while the workers run
+            drop(unsafe { std::ptr::read(caller) });
         }
         let mut wake_ops = 0;
         for j in joins {
@@ -172,9 +201,8 @@ fn run_scenario(idx: usize, bound: Option<usize>) -> u64 {
         } else {
             assert_eq!(slot.refs.load(SeqCst), 1, "after all foreign-side wakers are gone the caller's refcount must be back at its start value");
         }
-        // the caller's own handle: not dropped through the vtable (dec() asserts that the count stays >= 1
-        // for as long as the caller holds it)
-        std::mem::forget(caller);
+        // the caller's own handle is never dropped through the vtable in the other scenarios (dec() asserts that the count
+        // stays >= 1 for as long as the caller holds it)
     });
     iters.load(std::sync::atomic::Ordering::Relaxed)
 }
@@ -207,6 +235,10 @@ fn main() {
             cx.rule("loom", &format!("every interleaving (loom DPOR, preemption bound {:?}; None = unbounded) of 2-3 threads, each running a fixed list of clone/wake/wake_by_ref/drop on a foreign-side waker obtained inside one with_waker call — wakers of one family (sharing one CRawWaker) and separate clones — over the real task/mod.rs compiled against a loom-backed tarc::BaseArc; every scenario also with the caller dropping its own waker concurrently; oracle: caller's refcount never below 1 (0 when the caller drops), never touched after its last release, woken once per wake operation, refcount back to 1 (0) at the end; evaluations = schedules", bound));
             let mut total = 0;
             for i in 0..2 * SCENARIOS.len() {
+                // no poll can follow once the caller has dropped its own waker: the re-polling scenarios have no such variant
+                if i >= SCENARIOS.len() && SCENARIOS[i % SCENARIOS.len()].2.iter().any(|a| matches!(a, Act::DropRepollWake | Act::RepollWakeByRefDropBoth)) {
+                    continue;
+                }
                 let name = &scenario_name(i);
                 let (_, fam, acts) = &SCENARIOS[i % SCENARIOS.len()];
                 let case = json!({"scenario": name, "index": i, "same_family": fam, "threads": format!("{:?}", acts), "preemption_bound": bound});
